@@ -428,7 +428,7 @@ Proof.
     + lia.
     + cbn; lia.
   - (* v2 penalty *)
-    intros H. eapply effok_of_seff with (app := app) (asset := coll_asset) (dl := amt) (dn := debt_asset) (db := amt); [|reflexivity|reflexivity].
+    intros H. eapply effok_of_seff with (app := app) (asset := debt_asset) (dl := amt) (dn := debt_asset) (db := amt); [|reflexivity|reflexivity].
     exact (seff_penalty _ _ _ _ _ _ H).
 Qed.
 
@@ -668,14 +668,7 @@ Proof.
   - (* v2 debt close outside the class: DebtToken is the collector asset and the amounts agree *)
     unfold kf_C13_any in Hk. cbn in Hk. assert (debt_denom = asset /\ coll_amt = debt_amt) as (-> & ->) by lia.
     exists app, asset, debt_amt, debt_amt. repeat split; try lia; reflexivity.
-  - (* v2 penalty outside the class: same asset, or nothing paid *)
-    unfold kf_C13_any in Hk. cbn in Hk.
-    destruct (Z.eqb_spec coll_asset debt_asset) as [->|Hne].
-    + exists app, debt_asset, amt, amt. repeat split; try lia; reflexivity.
-    + cbn [step] in H. unfold v2_penalty in H. apply obind_ok in H. destruct H as (s1 & _ & H2).
-      apply lift_ok in H2. destruct H2 as (c & H2 & _). destruct (set_net_fee_spec _ _ _ _ _ H2) as (Hf & _).
-      assert (amt = 0) by lia. subst amt.
-      exists app, debt_asset, 0, 0. repeat split; try lia; try reflexivity. intros k. apply at_key_zero.
+  - exists app, debt_asset, amt, amt. repeat split; try lia; reflexivity.
 Qed.
 
 Lemma step_backed s o s' :
@@ -870,10 +863,12 @@ Definition ex_kf3_ops : list op := [ SetFlags 1 2 false true false; V2DebtClose 
 Definition last_kf (kf : op -> bool) (ops : list op) : bool :=
   match rev ops with o :: r => kf o && forallb kf_free r | [] => false end.
 
-Lemma kf1_refuted :
-  forallb valid_op ex_kf1_ops = true /\ last_kf kf_C13_1 ex_kf1_ops = true /\
-  holds_C13_backed [1; 2] [1; 2; 3] (run ex_genesis ex_kf1_ops) = false /\
-  holds_C13_flow [1; 2] [1; 2; 3] ex_genesis (V2Penalty 1 2 3 120000) (run ex_genesis ex_kf1_ops) = false.
+(* the former witness of C13-F1 (repaired): the penalty is booked where its coins are *)
+Lemma kf1_regression :
+  forallb valid_op ex_kf1_ops = true /\ forallb kf_free ex_kf1_ops = true /\
+  holds_C13_backed [1; 2] [1; 2; 3] (run ex_genesis ex_kf1_ops) = true /\
+  holds_C13_flow [1; 2] [1; 2; 3] ex_genesis (V2Penalty 1 2 3 120000) (run ex_genesis ex_kf1_ops) = true /\
+  nf_val (cs (run ex_genesis ex_kf1_ops)) 1 3 = 120000 /\ nf_val (cs (run ex_genesis ex_kf1_ops)) 1 2 = 0.
 Proof. vm_compute. repeat split. Qed.
 
 Lemma kf2_refuted :
